@@ -152,3 +152,34 @@ def _(c):
     c.raises_only_if("public_key not in a0")
     c.on_raise("same(self.unused_public_keys, u0)", "same(self.public_key_annotations, a0)")
     c.modifies("self.unused_public_keys", "self.public_key_annotations")
+
+
+# ---- C03: the balance index is a memo of a function of (stored blocks, block id) ----------------------------------------
+
+def pkb_store_shape():
+    import skepticoin.balances as bal
+    return StateShape(bal.PublicKeyBalances, block_by_hash=MAP(BYTES, CLS('Block')),
+                      cache=('mutable', 'dict', MAP(BYTES, PKB)))
+
+
+@WL.contract("skepticoin.balances.PublicKeyBalances.public_key_balances_by_hash", props=["C03"])
+def _(c):
+    c.params(self=pkb_store_shape())
+    c.summary("pkb_of_chain", args=["self.block_by_hash", "head"])
+    c.returns(PKB)
+    c.trust("the balances at a block are computed by replaying its chain from the stored blocks: a function of (stored blocks, "
+            "block id) that reads and writes nothing else (its value against the unspent sets is the bounded part of C03)")
+
+
+@WL.contract("skepticoin.balances.PublicKeyBalances.__getitem__#C03", props=["C03"])
+def _(c):
+    c.params(self=pkb_store_shape())
+    c.let(cache0="self.cache")
+    # the memo only ever holds what the function returns ...
+    MEMO = "every(bytes, lambda k: implies(k in %s, same(%s[k], self.public_key_balances_by_hash(k))))"
+    c.requires(MEMO % ("self.cache", "self.cache"))
+    c.ensures("same(result, self.public_key_balances_by_hash(key))",
+              MEMO % ("self.cache", "self.cache"),
+              # ... and what was obtained earlier stays what it was
+              "every(bytes, lambda k: implies(k in cache0, k in self.cache and same(self.cache[k], cache0[k])))")
+    c.modifies("self.cache")
